@@ -172,7 +172,7 @@ def attr_c06(ev, names):
     if fam(ev, "t"):
         return "parse-pre" in names
     if fam(ev, "cv"):
-        return any_in(names, {"codec-pre", "setfloat-pre", "arg-unchanged"})
+        return any_in(names, {"codec-pre", "setfloat-pre", "arg-unchanged"}) or ("setint" in names and ev.get("fn") in ("SetInt64", "SetFinite", "ScanInt64"))
     return fam(ev, "mh")
 
 
